@@ -292,6 +292,23 @@ impl World {
         let now = self.now;
         self.emit(ctx, &format!("reg {} M/{}|k {} {} {} {}", w, w, cpu, run0, max, now), if st == 201 { "ok" } else { "err" }).await;
     }
+    /// 3-node part: the worker registers at a *follower*; `handle_register_worker` there forwards the request to the
+    /// leader's API over HTTP (the leader proposes and registers) and registers the worker locally as well
+    async fn register_via_follower(&mut self, ctx: &mut Ctx, w: &str, cpu: usize, run0: usize, max: usize) {
+        let Some((_, followers)) = &self.cluster else { return };
+        let Some((_, fcoord, _)) = followers.first().map(|x| (x.0, x.1.clone(), x.2.clone())) else { return };
+        clock::verif_set_ms(self.now);
+        let addr = format!("{}/{}", self.names.base, w);
+        let body = serde_json::json!({"worker_id": w, "address": addr, "api_key": "k", "capacity": {"cpu_cores": cpu, "pipelines_running": run0, "max_pipelines": max}});
+        let routes = varpulis_cluster::cluster_routes(fcoord.clone(), Arc::new(RbacConfig::disabled()), None).recover(varpulis_cluster::api::handle_rejection);
+        let resp = warp::test::request().method("POST").path("/api/v1/cluster/workers/register").json(&body).reply(&routes).await;
+        let st = resp.status().as_u16();
+        if st != 201 { ctx.count("cluster.forwarded_registration_refused"); if !self.still_leader() { self.aborted = true; } else { self.emit(ctx, "noop forwarded-register", &format!("refused:{}", st)).await; } return; }
+        ctx.count("cluster.forwarded_registration");
+        let now = self.now;
+        // on the leader this is an ordinary registration; the follower's view (which already holds the worker) is checked by the fview lines
+        self.emit(ctx, &format!("reg {} M/{}|k {} {} {} {}", w, w, cpu, run0, max, now), "ok").await;
+    }
     async fn heartbeat(&mut self, ctx: &mut Ctx, w: &str, running: usize, events: u64) {
         clock::verif_set_ms(self.now);
         let body = serde_json::json!({"events_processed": events, "pipelines_running": running});
@@ -307,14 +324,22 @@ impl World {
         let body = serde_json::json!({"name": gname, "pipelines": specs.iter().map(|s| serde_json::json!({
             "name": s.name, "source": "stream X = Y", "worker_affinity": s.aff, "replicas": s.replicas})).collect::<Vec<_>>()});
         { let mut s = self.script.lock().unwrap(); s.clear(); s.extend(outcomes.iter().copied()); }
+        let keys_before: Vec<String> = { let c = self.coord.read().await; c.pipeline_groups.keys().cloned().collect() };
         let (st, v) = api!(self, "POST", "/api/v1/cluster/pipeline-groups", Some(body));
         self.script.lock().unwrap().clear();
-        if st != 201 {
-            ctx.count("deploy.refused");
-            self.emit(ctx, "noop deploy", &format!("refused:{}", st)).await;
-            return;
-        }
-        let gid = v["id"].as_str().unwrap_or("").to_string();
+        let unreplicated = if st != 201 {
+            // "applied locally but Raft replication failed": the group is in the local view although the call was refused
+            let now: Vec<String> = { let c = self.coord.read().await; c.pipeline_groups.keys().cloned().collect() };
+            match now.into_iter().find(|g| !keys_before.contains(g)) {
+                Some(g) => { ctx.count("deploy.applied_locally_not_replicated"); Some(g) }
+                None => {
+                    ctx.count("deploy.refused");
+                    self.emit(ctx, "noop deploy", &format!("refused:{}", st)).await;
+                    return;
+                }
+            }
+        } else { None };
+        let gid = unreplicated.clone().unwrap_or_else(|| v["id"].as_str().unwrap_or("").to_string());
         let alias = self.names.gid(&gid);
         let mut res: Vec<String> = {
             let c = self.coord.read().await;
@@ -325,7 +350,8 @@ impl World {
         };
         res.sort();
         if res.iter().any(|r| r.contains(":0:")) { ctx.count("deploy.with_failed_replica"); }
-        self.emit(ctx, &format!("deploy {} {} {}", alias, gname, if res.is_empty() { "-".to_string() } else { res.join(",") }), "ok").await;
+        let line = format!("deploy {} {} {}", alias, gname, if res.is_empty() { "-".to_string() } else { res.join(",") });
+        if unreplicated.is_some() { self.emit(ctx, &format!("unreplicated {}", line), &format!("refused:{}", st)).await; } else { self.emit(ctx, &line, "ok").await; }
     }
     async fn teardown(&mut self, ctx: &mut Ctx, alias: &str) {
         let gid = self.names.gid_rev(alias);
@@ -334,8 +360,15 @@ impl World {
             c.pipeline_groups.get(&gid).map(|g| g.placements.iter().filter(|(_, d)| !d.pipeline_id.is_empty()).map(|(n, d)| format!("{}@{}", n, d.worker_id.0)).collect()).unwrap_or_default()
         };
         tasks.sort();
+        let existed = self.coord.read().await.pipeline_groups.contains_key(&gid);
         let (st, _) = api!(self, "DELETE", &format!("/api/v1/cluster/pipeline-groups/{}", gid), None);
-        self.emit(ctx, &format!("teardown {} {}", alias, if tasks.is_empty() { "-".to_string() } else { tasks.join(",") }), if st == 200 { "ok" } else { "notfound" }).await;
+        let line = format!("teardown {} {}", alias, if tasks.is_empty() { "-".to_string() } else { tasks.join(",") });
+        let gone = !self.coord.read().await.pipeline_groups.contains_key(&gid);
+        if st >= 500 && existed && gone {
+            ctx.count("teardown.applied_locally_not_replicated");
+            self.emit(ctx, &format!("unreplicated {}", line), &format!("refused:{}", st)).await;
+        } else if st >= 500 { self.emit(ctx, "noop teardown", &format!("refused:{}", st)).await; }
+        else { self.emit(ctx, &line, if st == 200 { "ok" } else { "notfound" }).await; }
     }
     async fn manual_migrate(&mut self, ctx: &mut Ctx, alias: &str, name: &str, target: &str, ok: bool) {
         let gid = self.names.gid_rev(alias);
@@ -416,6 +449,43 @@ impl World {
                 self.emit(ctx, &format!("conndelete {}", name), if st == 200 { "ok" } else { "notfound" }).await;
             }
         }
+    }
+    fn models_dump(m: &HashMap<String, varpulis_cluster::model_registry::ModelRegistryEntry>) -> String {
+        let mut v: Vec<String> = m.iter().map(|(k, e)| format!("{}={}", k, e.s3_key.replace('/', "_"))).collect();
+        v.sort();
+        if v.is_empty() { "-".into() } else { v.join(";") }
+    }
+    /// `ML` = the coordinator's model registry, `MR` = the replicated one (and on followers after their sync)
+    async fn emit_models(&mut self, ctx: &mut Ctx, op: &str, answer: &str) {
+        if self.aborted || !self.still_leader() { return; }
+        let ml = { let c = self.coord.read().await; Self::models_dump(&c.model_registry) };
+        let mr = { let s = self.shared.read().unwrap_or_else(|e| e.into_inner()); Self::models_dump(&s.models) };
+        ctx.count(&format!("op.{}", op.split(' ').next().unwrap_or("")));
+        ctx.case(op, &format!("{} | ML {} | MR {}", answer, ml, mr));
+        if let Some((_, followers)) = &self.cluster {
+            // the followers were synchronised by the `emit` that precedes every model line
+            let followers: Vec<_> = followers.iter().map(|(i, c, s)| (*i, c.clone(), s.clone())).collect();
+            for (fid, fcoord, _fshared) in followers {
+                let mf = { let c = fcoord.read().await; Self::models_dump(&c.model_registry) };
+                ctx.count("op.fmodels");
+                ctx.case(&format!("fmodels {}", fid), &format!("ok | ML {} | MF {}", ml, mf));
+            }
+        }
+    }
+    async fn model_upload(&mut self, ctx: &mut Ctx, name: &str) {
+        let body = serde_json::json!({"name": name, "inputs": ["x"], "outputs": ["y"], "description": "d"});
+        let (st, _) = api!(self, "POST", "/api/v1/cluster/models", Some(body));
+        self.emit(ctx, "noop model-upload", "ok").await; // the view itself is untouched; followers sync here
+        self.emit_models(ctx, &format!("modelup {} models_{}.onnx", name, name), if st == 201 { "ok" } else { "err" }).await;
+    }
+    async fn model_delete(&mut self, ctx: &mut Ctx, name: &str) {
+        let (st, _) = api!(self, "DELETE", &format!("/api/v1/cluster/models/{}", name), None);
+        self.emit(ctx, "noop model-delete", "ok").await;
+        self.emit_models(ctx, &format!("modeldel {}", name), if st == 200 { "ok" } else { "notfound" }).await;
+    }
+    async fn models_after_sync(&mut self, ctx: &mut Ctx) {
+        self.sync_only(ctx).await;
+        self.emit_models(ctx, "msync", "ok").await;
     }
     async fn startup_policy(&mut self, ctx: &mut Ctx, p: Option<ScalingPolicy>) {
         // main.rs: `coord.scaling_policy = scaling_policy;` before the health loop starts
@@ -611,7 +681,11 @@ async fn scenario(ctx: &mut Ctx, base: &str, script: &Script, idx: u64) {
                     _ => w.register(ctx, &anyw, 2, 0, max).await,
                 }
             }
-            31 | 32 => { w.set_time(w.now + ctx.rng.below(200)); w.sync_only(ctx).await; }
+            31 => { w.set_time(w.now + ctx.rng.below(200)); w.sync_only(ctx).await; }
+            32 => { // model registry: upload / delete / what a sync makes of it
+                let m = ctx.rng.pick(&["m1", "m2"]).to_string();
+                match ctx.rng.below(4) { 0 | 1 => w.model_upload(ctx, &m).await, 2 => w.model_delete(ctx, &m).await, _ => w.models_after_sync(ctx).await }
+            }
             _ => { // a tick of the health loop, now or after silence long enough for a time-out
                 let dt = if ctx.rng.chance(1, 3) { timeout + 1 + ctx.rng.below(timeout) } else { ctx.rng.below(timeout / 2 + 1) };
                 w.set_time(w.now + dt);
@@ -634,6 +708,27 @@ async fn scenario(ctx: &mut Ctx, base: &str, script: &Script, idx: u64) {
     // every scenario ends with a tick so that what was left unreplicated shows as a revert
     w.set_time(w.now + 10);
     w.tick(ctx, &[]).await;
+    if idx % 3 == 1 {
+        // the error paths of client_write: consensus is gone (the raft task is shut down), the API keeps answering.
+        // Handlers that propose first must refuse and change nothing; handlers that commit locally first answer
+        // 500 "applied locally but Raft replication failed" - refused, and the next sync_from_raft takes it back.
+        ctx.count("scenario.with_dead_raft_tail");
+        let _ = tokio::time::timeout(Duration::from_secs(20), w.raft.shutdown()).await;
+        let before = w.worker_ids().await.len();
+        { let body = serde_json::json!({"worker_id": "w9", "address": format!("{}/w9", w.names.base), "api_key": "k", "capacity": {"cpu_cores": 1, "pipelines_running": 0, "max_pipelines": 5}});
+          let (st, _) = api!(w, "POST", "/api/v1/cluster/workers/register", Some(body));
+          if w.worker_ids().await.len() != before { ctx.count("deadraft.register_changed_state"); }
+          w.emit(ctx, "noop register-without-consensus", &format!("refused:{}", if st >= 400 { "err".to_string() } else { st.to_string() })).await; }
+        { let c = ClusterConnector { name: "cdead".into(), connector_type: "console".into(), params: HashMap::new(), description: None };
+          let (st, _) = api!(w, "POST", "/api/v1/cluster/connectors", serde_json::to_value(&c).ok());
+          w.emit(ctx, "noop connector-without-consensus", &format!("refused:{}", if st >= 400 { "err".to_string() } else { st.to_string() })).await; }
+        let specs = vec![PSpec { name: "p".into(), aff: None, replicas: 1 }];
+        w.deploy(ctx, "grpdead", &specs, &[true]).await;
+        let gs = w.groups().await;
+        if !gs.is_empty() { let g = ctx.rng.pick(&gs).clone(); w.teardown(ctx, &g).await; }
+        w.set_time(w.now + 10);
+        w.sync_only(ctx).await;
+    }
     w.shutdown().await;
 }
 
@@ -643,14 +738,24 @@ async fn scenario3(ctx: &mut Ctx, base: &str, script: &Script) {
     let scratch = ctx.scratch("c38");
     let c = crate::p_raftagree::Cluster::start(None, &scratch).await;
     let (lid, _) = c.wait_leader(90, &[1, 2, 3]).await;
-    let peers: std::collections::BTreeMap<u64, String> = c.addrs.iter().enumerate().map(|(i, a)| (i as u64 + 1, a.clone())).collect();
-    let mut leader_coord = None;
-    let mut followers = Vec::new();
+    // every coordinator serves its cluster API on a port of its own; `peer_addrs` (leader forwarding) points there
+    let mut peers: std::collections::BTreeMap<u64, String> = std::collections::BTreeMap::new();
+    let mut all = Vec::new();
     for n in c.live() {
-        let mut co = Coordinator::with_raft(n.raft.clone(), n.shared.clone(), peers.clone(), None);
+        let mut co = Coordinator::with_raft(n.raft.clone(), n.shared.clone(), std::collections::BTreeMap::new(), None);
         co.heartbeat_timeout = Duration::from_millis(15000);
         let sc: SharedCoordinator = Arc::new(tokio::sync::RwLock::new(co));
-        if n.id == lid { leader_coord = Some((sc, n.raft.clone(), n.shared.clone())); } else { followers.push((n.id, sc, n.shared.clone())); }
+        let routes = varpulis_cluster::cluster_routes(sc.clone(), Arc::new(RbacConfig::disabled()), None).recover(varpulis_cluster::api::handle_rejection);
+        let (addr, fut) = warp::serve(routes).bind_ephemeral(([127, 0, 0, 1], 0));
+        tokio::spawn(fut);
+        peers.insert(n.id, format!("http://{}", addr));
+        all.push((n.id, sc, n.raft.clone(), n.shared.clone()));
+    }
+    let mut leader_coord = None;
+    let mut followers = Vec::new();
+    for (id, sc, raft, shared) in all {
+        { let mut g = sc.write().await; if let Some(h) = g.raft_handle.as_mut() { h.peer_addrs = peers.clone(); } g.update_raft_role(); }
+        if id == lid { leader_coord = Some((sc, raft, shared)); } else { followers.push((id, sc, shared)); }
     }
     let (coord, raft, shared) = leader_coord.unwrap_or_else(|| infra("leader node vanished"));
     clock::verif_set_ms(0);
@@ -659,6 +764,11 @@ async fn scenario3(ctx: &mut Ctx, base: &str, script: &Script) {
         cluster: Some((lid, followers)), aborted: false };
     let wn = |i: u64| format!("w{}", i);
     for i in 1..=2u64 { w.set_time(w.now + 10); w.register(ctx, &wn(i), 2, 0, 4).await; }
+    w.set_time(w.now + 10);
+    w.register_via_follower(ctx, "w3", 2, 0, 4).await;
+    w.model_upload(ctx, "m1").await;
+    w.model_upload(ctx, "m2").await;
+    w.model_delete(ctx, "m2").await;
     let steps = 8 + ctx.rng.below(6);
     for _ in 0..steps {
         if w.aborted { break; }
@@ -677,7 +787,7 @@ async fn scenario3(ctx: &mut Ctx, base: &str, script: &Script) {
                 }
             }
             10 => { w.set_time(w.now + 16000); let x = wn(1); let n = w.assigned_len(&x).await; w.heartbeat(ctx, &x, n, 1).await; w.tick(ctx, &[true, true, true, true]).await; }
-            _ => { w.set_time(w.now + 20); w.register(ctx, &anyw, 2, 0, 4).await; }
+            _ => { w.set_time(w.now + 20); if ctx.rng.chance(1, 2) { w.register_via_follower(ctx, &anyw, 2, 0, 4).await; } else { w.register(ctx, &anyw, 2, 0, 4).await; } }
         }
     }
     if !w.aborted { w.set_time(w.now + 10); w.tick(ctx, &[]).await; }
